@@ -453,7 +453,7 @@ var specHist = pbt.Register(&pbt.Spec[Case]{
 		classes := []int{0, 3, 8, 8, 20, 20, 45, 100}
 		return Case{Elem: rapid.IntRange(0, 3).Draw(t, "elem"), U: u, Ops: genOps(t, u, classes, profile)}
 	},
-	Run: Run, Quick: 15000, Thorough: 100000,
+	Run: Run, Quick: 15000, Thorough: 100000, Replicas: 4, ReplicaEvery: 16,
 })
 
 // ---------------------------------------------------------------- sparsest legal shapes
